@@ -524,3 +524,34 @@ Example C01_deep_nonvacuous :
   | Err _ => False
   end.
 Proof. vm_compute. repeat split; reflexivity. Qed.
+
+From BP Require Import Model.C01ReachCv Proofs.C01ReachCvP.
+
+(* ---- layer 8: the hypothesis of the reachability theorems, clause by clause.  The check (harness/c01reach.py, stage
+        `reach`) runs generated histories on the real classes AND evaluates `hist_ok op_reach_ok_p` on them inside Coq; to
+        count which condition a history fails it evaluates six predicates (Model/C01ReachCv.v: values, oneof groups of
+        constructor kwargs, pickle size, clean_bytes, flags of constructor / from_dict arguments, flags of assignments
+        incl. the holders of a nested assignment).  These two theorems say that the six together ARE the hypothesis of
+        C01_roundtrip_reachable_parse - per operation and per history (a history is judged along ONE run, whatever the
+        predicate) - so the per-clause counts of the evidence are counts about that hypothesis and nothing else. *)
+Theorem C01_reach_clauses : forall sc o p,
+  op_reach_ok_p sc o p = forallb (fun cl => cl sc o p) clauses.
+Proof. exact op_reach_ok_p_clauses. Qed.
+Print Assumptions C01_reach_clauses.
+
+Theorem C01_hist_reach_clauses : forall sc ops o,
+  hist_ok op_reach_ok_p sc o ops = forallb (fun cl => hist_ok cl sc o ops) clauses.
+Proof. exact hist_reach_ok_p_clauses. Qed.
+Print Assumptions C01_hist_reach_clauses.
+
+(* non-vacuity: the sixteen operations of ex_hist_parse satisfy all six; the K12 history m.a; m.a.b.x = 0 fails exactly
+   cl_setflags, the two-member constructor exactly cl_groups, a parse of an unknown field exactly cl_parse *)
+Example C01_reach_clauses_nonvacuous :
+  map (fun cl => hist_ok cl ex_schema (new ex_schema 11) ex_hist_parse) clauses = [true; true; true; true; true; true] /\
+  map (fun cl => hist_ok cl w_sc (new w_sc 11) [OBase (OGet [] 0); OBase (OSet [0%nat; 0%nat] 0 (PInt 0))]) clauses
+    = [true; true; true; true; true; false] /\
+  map (fun cl => hist_ok cl ex_schema (new ex_schema 11) [OConstruct [(2%nat, PStr [x78]); (3%nat, PInt 1)]]) clauses
+    = [true; false; true; true; true; true] /\
+  map (fun cl => hist_ok cl ex_schema (new ex_schema 11) [OBase (OSet [] 0 (PInt 1)); OBase (OParse [x98; x06; x01])]) clauses
+    = [true; true; true; false; true; true].
+Proof. vm_compute. repeat split; reflexivity. Qed.
